@@ -282,6 +282,19 @@ Section spec2.
     destruct (xshape s !! u) as [sh|] eqn:Hsh; [|bad_handle; intros [? ?]; congruence].
     cbn. split; [by eexists|]. by intros cw ?.
   Qed.
+  Lemma spec_enum_clone e : StepSpec2 s (EnumClone e).
+  Proof.
+    unfold StepSpec2. cbn [step2]. unfold enum_clone.
+    destruct (enums (base (l3 s)) !! e) as [E|] eqn:HE; [|bad_handle; intros [? ?]; congruence].
+    cbn. split; [by eexists|]. by intros cw ?.
+  Qed.
+
+  Lemma spec_eval_clone v : StepSpec2 s (EvalClone v).
+  Proof.
+    unfold StepSpec2. cbn [step2]. unfold eval_clone.
+    destruct (evals (base (l3 s)) !! v) as [V|] eqn:HV; [|bad_handle; intros [? ?]; congruence].
+    unfold lift3. cbn. unfold new_enum_value, alloc, ok. cbn. split; [by eexists|]. by intros cw ?.
+  Qed.
 End spec2.
 
 Section spec2b.
@@ -374,6 +387,7 @@ Section spec2b.
     - by apply spec_msg_attach. - by apply spec_msg_remove_signal. - by apply spec_msg_remove_all.
     - by apply spec_update_name. - by apply spec_mux_insert. - by apply spec_mux_remove.
     - by apply spec_clear_group. - by apply spec_clear_all.
+    - by apply spec_enum_clone. - by apply spec_eval_clone.
   Qed.
 End spec2b.
 
